@@ -9,6 +9,16 @@ CLAIMS = {
   text="Exploration: every ordered forest with <= 3 (quick) / <= 4 (thorough) nodes over 32 labels x BOM is enumerated completely, and random forests (<= 300 nodes, forced chains to depth 99, all registered and custom tags, records, role nodes inside/after families, hostile values, nested pointers) are built through the public API or by decoding harness-rendered text; each is encoded, decoded and compared node by node (tag, value, pointer, order, nesting, Go type, BOM). Shrunk failures are replay files.",
   note="Trusted: the comparison walks public accessors only; legality of parts as stated in the property (values pre-trimmed with strings.TrimSpace). Role nodes before any family are outside the quantifier.",
   design="6.1"),
+ "C02": dict(
+  technique="model-based PBT (rapid): generated GEDCOM byte streams vs a hand-written reference line grammar/tree builder, plus encode/decode fixpoint; native go fuzzing with the same oracle in thorough",
+  text="Exploration: structured texts with random level walks, mixed CR/LF/CRLF terminators, blank lines, BOM, space runs, xrefs, padded values, continuation lines and over-deep jumps (and byte-mutated variants) are decoded under all four AllowMultiLine x AllowInvalidIndents combinations; the decoded tree must equal the tree built by an independent reference scanner (no regexp, no shared code), and the re-encoded text must be a fixpoint that the reference grammar reads as the same tree. Thorough adds a coverage-guided native fuzz campaign with the oracle inside the target.",
+  note="Trusted: internal/ref/lines.go (about 250 lines), strings.TrimSpace. Inputs outside the strict documented grammar (several blanks after an xref, tag glued to other bytes, role lines before any family, over-deep first line) are not judged against the model; the fixpoint clauses still apply.",
+  design="6.2"),
+ "C03": dict(
+  technique="robustness PBT + exhaustive truncation of adversarial constants (rapid), native go fuzzing with a hostile seed corpus in thorough; validity-predicate oracle",
+  text="Exploration: ten classes of byte streams (uniform bytes, GEDCOM-alphabet bytes, truncated and byte-mutated structured text, the adversarial shapes named in the property, 1 MB lines, 3000 nesting levels) x all option combinations, and every prefix of every adversarial constant exhaustively. Oracle: the call returns, exactly one of document/error is set, the error quotes the offending line with a line number consistent with the input, and the only accepted panic is 'indent is too large' while invalid indents are not allowed.",
+  note="Trusted: reference scanner for locating the first unparsable line; either line-numbering convention (non-blank lines / all terminators) is accepted. Reader I/O errors are out of scope.",
+  design="6.3"),
  "C05": dict(
   technique="exhaustive enumeration of all days/months/years against an integer calendar oracle + rapid PBT for ordering and min/max",
   text="Exploration, exhaustive on the finite domain the property names: every one of the 3,652,059 days, 119,988 month-year and 9,999 year-only dates is built (struct and text route) and its bounds, length, Years containment and day-to-day monotonicity are compared with an integer Gregorian calendar cross-checked against time.Date; random day pairs and DateNodes lists cover IsBefore/IsAfter/Minimum/Maximum. Exhaustive sub-checks are marked in evidence.",
